@@ -709,7 +709,7 @@ fn ref_add(num_leaves: u64, peaks: &[W], el: W) -> Vec<W> {
 /// op: "pack", "unpack", "unpack_bad", "pack_unpack", "add". `store`: Merkle store given to the VM.
 /// Returns the outcome class and, for "add", the final process (for store inspection).
 fn check_mmr_op(rep: &Rep, op: &str, num_leaves: u64, peaks: &[W], el: W, store: MerkleStore) -> (&'static str, Option<Obs>) {
-    let full = format!("std::collections::mmr::{}", if op == "unpack_bad" { "unpack" } else { op });
+    let full = format!("std::collections::mmr::{}", if op == "unpack_bad" { "unpack" } else if op == "pack_unpack_call" { "pack_unpack (inside a call)" } else { op });
     let class = if op == "unpack_bad" { "wrong_hash".to_string() } else { class_of_leaves(num_leaves) };
     let hash = undigest(native_peaks(num_leaves, peaks).hash_peaks());
     let map_value = mmr_map_value(num_leaves, peaks);
@@ -741,6 +741,20 @@ fn check_mmr_op(rep: &Rep, op: &str, num_leaves: u64, peaks: &[W], el: W, store:
             m.extend(mmr_layout(MMR_PTR2, num_leaves, peaks));
             (format!("use.std::collections::mmr {LOADER} begin exec.load_words exec.mmr::pack exec.mmr::unpack end"), st, ld_adv, vec![], vec![], m)
         }
+        // the same round trip inside a called procedure: a non-root execution context with its own memory
+        // (the advice-map entry written by pack must hold the words of THAT context's memory)
+        "pack_unpack_call" => {
+            let mut st = ld_args.clone();
+            st.extend([MMR_PTR, MMR_PTR2]);
+            (
+                format!("use.std::collections::mmr {LOADER} proc.in_call exec.load_words exec.mmr::pack exec.mmr::unpack end begin call.in_call end"),
+                st,
+                ld_adv,
+                vec![],
+                vec![],
+                Mem::new(),
+            )
+        }
         "add" => {
             let mut st = ld_args.clone();
             push_w(&mut st, el);
@@ -751,9 +765,19 @@ fn check_mmr_op(rep: &Rep, op: &str, num_leaves: u64, peaks: &[W], el: W, store:
         _ => panic!("unknown mmr op {op}"),
     };
     let sent = sentinels(16);
+    let n_args = stack.len();
     stack.extend(&sent);
     let mut expected = exp_top;
-    expected.extend(&sent);
+    if op == "pack_unpack_call" {
+        // the callee sees the top 16 elements only: it consumes the arguments, zeros are shifted in at the
+        // bottom of ITS stack, and the caller's deeper elements come back below them on return
+        assert!(n_args <= 16 && expected.is_empty());
+        expected.extend(&sent[..16 - n_args]);
+        expected.extend(std::iter::repeat(0).take(n_args));
+        expected.extend(&sent[16 - n_args..]);
+    } else {
+        expected.extend(&sent);
+    }
     let prog = program(&src);
     let adv = AdviceInputs::default().with_stack(felts(&adv_stack)).with_map(adv_map).with_merkle_store(store);
     let o = match exec(&prog, &stack, adv) {
@@ -797,7 +821,7 @@ fn check_mmr_op(rep: &Rep, op: &str, num_leaves: u64, peaks: &[W], el: W, store:
             return ("wrong_memory", None);
         }
     }
-    if op == "pack" || op == "pack_unpack" {
+    if op == "pack" || op == "pack_unpack" || op == "pack_unpack_call" {
         let host = o.p.host.borrow();
         let got = host.advice_provider().map().get(&digest(hash)).map(|v| ints(v));
         if got.as_deref() != Some(&map_value[..]) {
@@ -1399,7 +1423,7 @@ impl bfs::Model for MmrModel<'_> {
 
 const TRUNCATE_MODES: [&str; 5] = ["inputs", "pushes", "call16", "call21", "exec_locals"];
 const MMR_HELPERS: [&str; 5] = ["u32unchecked_trailing_ones", "trailing_ones", "ilog2_checked", "num_leaves_to_num_peaks", "num_peaks_to_message_size"];
-const SYNTH_OPS: [&str; 5] = ["pack", "unpack", "unpack_bad", "pack_unpack", "add"];
+const SYNTH_OPS: [&str; 6] = ["pack", "unpack", "unpack_bad", "pack_unpack", "pack_unpack_call", "add"];
 
 fn replay_case(ctx: &Ctx, case: &Value) {
     let hist = Hist::new();
